@@ -108,7 +108,7 @@ WL = {
     },
     MON: {'f': 'SClientText', 'p': 'SClientText', 'policy': 'SClientText'},     # policy file / policy names
     CFG: {'setting': 'SClientText', 's': 'SClientText', 'path': 'SClientText'},  # configuration keys / paths
-    SLG: {'user_id': 'SClientText'},
+    SLG: {'user_id': 'SClientText', 'response.status_code': 'SNum'},     # HTTP status of the SLUGS answer
     PIE: {
         'status': 'SEnumName', 'reason': 'SEnumName', 'message': 'SServerMsg',
         "result.get('result_reason')": 'SEnumName', "result.get('result_message')": 'SServerMsg',
